@@ -175,6 +175,9 @@ func (m *TlvModel) GenReadFrom(buf *bytes.Buffer) error {
 				l := enc.TLNum(0)
 				{{call .GenTlvNumberDecode "typ"}}
 				{{call .GenTlvNumberDecode "l"}}
+				if uint64(l) > uint64(reader.Length()-reader.Pos()) {
+					return nil, enc.ErrFailToParse{TypeNum: typ, Err: enc.ErrBufferOverflow}
+				}
 
 				err = nil
 
